@@ -278,11 +278,16 @@ func isFullChange(r protocol.Range) bool {
 
 func (s *Server) DidClose(ctx context.Context, params *protocol.DidCloseTextDocumentParams) error {
 	s.documents.Delete(params.TextDocument.URI)
-	// without an open document the file on disk is what the workspace is made of again
-	if path := uriToPath(params.TextDocument.URI); path != "" && s.workspace != nil {
-		if data, err := os.ReadFile(path); err == nil {
+	// without an open document the file on disk is what the workspace is made of again; a file
+	// that cannot be read (never saved, or deleted while it was open) leaves nothing of the
+	// discarded buffer behind
+	if path := uriToPath(params.TextDocument.URI); path != "" {
+		if s.workspace != nil {
+			data, _ := os.ReadFile(path)
 			s.workspace.UpdateFile(path, string(data))
 		}
+		// a parse cached before the document was opened may be older than the file on disk
+		s.loader.InvalidateFile(path)
 	}
 	s.treeEpoch.Add(1)
 	s.nextDiagnosticsVersion(params.TextDocument.URI)
